@@ -135,9 +135,16 @@ func (s *state) unmarshal(data []byte, fixItem fix.Item) error {
 		}
 
 		cnt := noKv.Value.Value().(int)
-		startNoTag := bytes.Index(data, append([]byte(noKv.Key), '='))
-		if startNoTag == -1 {
-			return nil
+		// The count field is located the same way scanKeyValue has just found it:
+		// at the very start of the data or right after a delimiter.
+		noTagQuery := append([]byte(noKv.Key), '=')
+		startNoTag := 0
+		if !bytes.HasPrefix(data, noTagQuery) {
+			startNoTag = bytes.Index(data, append([]byte{1}, noTagQuery...))
+			if startNoTag == -1 {
+				return nil
+			}
+			startNoTag++
 		}
 
 		startFirstFieldTag := bytes.Index(data[startNoTag:], fix.Delimiter)
